@@ -466,3 +466,5 @@ def check(src, rep, tier):
     rep.guard('C16.R4', r4_last_match, src)
     from . import common
     rep.guard('C16.R1', common.check_error_construction, src, 'C16.R1', 'copyright', None, 0)
+    from . import common as _common_flags
+    rep.guard('C16.R1', _common_flags.check_re_positional_flags, src, 'C16.R1', 'copyright', 'a Files field with more than that many patterns is cut short: the rest is one pattern with blanks in it, and its files match no paragraph')
